@@ -198,6 +198,7 @@ class SimNet:
         self.corruptor = None  # callable(data, rng) -> data
         self.on_tx = None  # observer(tx)
         self.on_rx = None  # observer(t, sock, data, src, tx_idx, copy)
+        self.after_rx = None  # observer(sock), right after datagram_received returned
 
     def _next_fd(self):
         self._fd += 1
@@ -318,4 +319,8 @@ class SimNet:
             elif rsock.transport is None or not rsock.transport._receiving:
                 rsock.backlog.append((data, addr))
             else:
-                rsock.transport._protocol.datagram_received(data, addr)
+                try:
+                    rsock.transport._protocol.datagram_received(data, addr)
+                finally:
+                    if self.after_rx is not None:
+                        self.after_rx(rsock)
